@@ -29,7 +29,7 @@ RULE = ('one evaluation = one seeded run: a single-client sequence of 10-120 Deq
         'collections.deque; or 2-3 concurrent appenders/poppers under the seeded scheduler checked for linearizability against a '
         'deque with the same maxlen; non-trivial = at least 5 calls / a context switch; distinct = SHA-256 of program or event log')
 ASSUMPTIONS = ['values compare by == as collections.deque does; NaN values are not used']
-PROBES = ('lifecycle', 'maxlen_discard', 'from_fanout', 'from_django', 'lock_wait')
+PROBES = ('own_temporary_directory', 'lifecycle', 'maxlen_discard', 'from_fanout', 'from_django', 'lock_wait')
 TECHNIQUE = 'deterministic simulation (seeded file/temp names, simulated processes) + differential testing against collections.deque; seeded schedules + linearizability for concurrent use'
 LEVEL_TEXT = ('seeded exploration of method sequences with lifecycle events, each call compared with collections.deque; concurrent '
               'producer/consumer interleavings are explored by the seeded scheduler and decided by a linearizability search.')
@@ -105,7 +105,7 @@ def gen_case(seed, tier):
         else:
             op = {'op': rng.choice(('reopen', 'pickle', 'copy', 'restart'))}
         prog.append(op)
-    cfg = {'kind': 'seq', 'maxlen': maxlen, 'mfs': mfs, 'origin': rng.choice(('direct', 'direct', 'fanout', 'django')),
+    cfg = {'kind': 'seq', 'maxlen': maxlen, 'mfs': mfs, 'origin': rng.choice(('direct', 'direct', 'fanout', 'django', 'temp')),
            'tiny_limit': rng.random() < 0.3}
     # the parent a Deque is obtained from may have been built with its own eviction settings: they are the parent's, a Deque never evicts
     cfg['parent_opts'] = rng.choice(({}, {}, {'eviction_policy': 'least-recently-used', 'size_limit': 2 ** 16, 'cull_limit': 10},
@@ -221,6 +221,10 @@ def run_seq(case):
             parent = mod.DjangoCache(world.path('dj'), {'SHARDS': 2, 'OPTIONS': dict(cfg.get('parent_opts', {}))})
             dq = parent.deque('dq', maxlen=maxlen)
             probes['from_django'] = 1
+        elif cfg['origin'] == 'temp':
+            # no directory given: the object makes its own, which then belongs to everything that refers to it by path
+            dq = dc.Deque(maxlen=maxlen)
+            probes['own_temporary_directory'] = 1
         else:
             dq = dc.Deque(directory=path, maxlen=maxlen)
         directory = dq.directory
@@ -259,6 +263,9 @@ def run_seq(case):
                 probes['lifecycle'] = probes.get('lifecycle', 0) + 1
                 got = want = None
             else:
+                if cfg['origin'] == 'temp':
+                    import gc
+                    gc.collect()      # earlier handles are gone for good before the next call
                 before = len(ref)
                 pair = apply_both(dq, ref, op)
                 got, want = pair[0], pair[1]
